@@ -26,7 +26,23 @@
 //!     127..129, 191..193, 255..257) with eight patterns - through `display`,
 //!     `encode_string`, `encode_display`, then back through (a), (b), (c);
 //!   * (extension) the same decode entry points into a 2-octet bounded
-//!     buffer (`octseq::Array<2>`).
+//!     buffer (`octseq::Array<2>`, base16/base64 Decoder made by `Default`);
+//!   * further entry points doing the same job, on every text above:
+//!     `decode` into `bytes::Bytes`, `base16::decode_vec`, and - for class
+//!     strings up to 7 characters and every encoding of the encode space -
+//!     `<module>::serde::deserialize` from a serde_json string; on every
+//!     octet string of the encode space `<module>::serde::serialize`;
+//!   * presentation-format escapes on the scanner routes: every string up to
+//!     length 7/9 over {backslash, alphabet symbols, digits forming `\DDD`
+//!     escapes of alphabet symbols, `=` / a non-symbol} that contains a
+//!     backslash, through `IterScanner::convert_token/convert_entry` and
+//!     through `SymbolConverter` fed explicit `Symbol::SimpleEscape/
+//!     DecimalEscape` values at every 2-token split (see `check_escaped`);
+//!   * the text forms built on the codecs (src/rdata/nsec3.rs): `Nsec3Salt`
+//!     (base16, "-" = empty) and `OwnerHash` (base32hex), both limited to
+//!     255 octets: every class string up to length 6/8 and every octet
+//!     length 0..=300 x 3 patterns through FromStr, scan, serde Deserialize,
+//!     from_octets, Display, serde Serialize (see `check_form_text`).
 //!
 //! Oracle: an independent, table-driven RFC 4648 codec written below
 //! (`Spec::encode`, `Spec::decode`). Well-formedness follows the variant the
@@ -43,6 +59,7 @@ use domain::base::scan::{
     ConvertSymbols, EntrySymbol, IterScanner, Scanner, StrError, Symbol,
 };
 use domain::utils::base64::DecodeError;
+use domain::rdata::nsec3::{Nsec3Salt, OwnerHash};
 use domain::utils::{base16, base32, base64};
 use mc::*;
 use octseq::array::Array;
@@ -264,6 +281,16 @@ trait Subject: 'static {
     fn spec() -> &'static Spec;
     fn decode_vec(s: &str) -> Result<Vec<u8>, DecodeError>;
     fn decode_arr2(s: &str) -> Result<Vec<u8>, DecodeError>;
+    /// `decode` into `bytes::Bytes` (BytesMut builder).
+    fn decode_bytes(s: &str) -> Result<Vec<u8>, DecodeError>;
+    /// A second convenience entry point, where the module has one (base16::decode_vec).
+    fn decode_extra(s: &str) -> Option<Result<Vec<u8>, DecodeError>>;
+    /// `<module>::serde::serialize` through serde_json (human readable): the JSON text.
+    fn serde_ser(data: &[u8]) -> Result<String, String>;
+    /// `<module>::serde::deserialize` through serde_json from a JSON document.
+    fn serde_de(json_doc: &str) -> Result<Vec<u8>, String>;
+    /// SymbolConverter over explicit symbols (incl. escapes); tokens end after symbol `cut` and at the end.
+    fn conv_syms(syms: &[Symbol], cut: usize, out: &mut Vec<u8>) -> Result<(), StrError>;
     fn push_all(chars: &[char], step: &Cell<usize>, tr: &mut PushTrace) -> Result<Vec<u8>, DecodeError>;
     fn push_all_arr2(chars: &[char], step: &Cell<usize>, tr: &mut PushTrace) -> Result<Vec<u8>, DecodeError>;
     fn push_log(chars: &[char], log: &mut Vec<String>);
@@ -308,8 +335,8 @@ macro_rules! push_loop {
 }
 
 macro_rules! subject {
-    ($ty:ident, $name:expr, $spec:ident, $m:ident, $decode:ident, $new:ident,
-     $display:ident, $encode_string:ident, $encode_display:ident) => {
+    ($ty:ident, $name:expr, $spec:ident, $m:ident, $decode:ident, $new:ident, $altnew:ident,
+     $display:ident, $encode_string:ident, $encode_display:ident, $extra:expr) => {
         struct $ty;
         impl Subject for $ty {
             const NAME: &'static str = $name;
@@ -322,13 +349,53 @@ macro_rules! subject {
             fn decode_arr2(s: &str) -> Result<Vec<u8>, DecodeError> {
                 $m::$decode::<Array<2>>(s).map(|a| a.as_ref().to_vec())
             }
+            fn decode_bytes(s: &str) -> Result<Vec<u8>, DecodeError> {
+                $m::$decode::<bytes::Bytes>(s).map(|b| b.to_vec())
+            }
+            fn decode_extra(s: &str) -> Option<Result<Vec<u8>, DecodeError>> {
+                let f: fn(&str) -> Option<Result<Vec<u8>, DecodeError>> = $extra;
+                f(s)
+            }
+            fn serde_ser(data: &[u8]) -> Result<String, String> {
+                let v = data.to_vec();
+                let mut buf = Vec::new();
+                let mut ser = serde_json::Serializer::new(&mut buf);
+                $m::serde::serialize(&v, &mut ser).map_err(|e| e.to_string())?;
+                String::from_utf8(buf).map_err(|e| e.to_string())
+            }
+            fn serde_de(json_doc: &str) -> Result<Vec<u8>, String> {
+                let mut de = serde_json::Deserializer::from_str(json_doc);
+                let v = $m::serde::deserialize::<Vec<u8>, _>(&mut de).map_err(|e| e.to_string())?;
+                de.end().map_err(|e| e.to_string())?;
+                Ok(v)
+            }
+            fn conv_syms(syms: &[Symbol], cut: usize, out: &mut Vec<u8>) -> Result<(), StrError> {
+                let mut c = $m::SymbolConverter::new();
+                out.clear();
+                let n = syms.len();
+                for (k, &sym) in syms.iter().enumerate() {
+                    if let Some(d) = <_ as ConvertSymbols<EntrySymbol, StrError>>::process_symbol(&mut c, EntrySymbol::Symbol(sym))? {
+                        out.extend_from_slice(d);
+                    }
+                    if k + 1 == cut || k + 1 == n {
+                        if let Some(d) = <_ as ConvertSymbols<EntrySymbol, StrError>>::process_symbol(&mut c, EntrySymbol::EndOfToken)? {
+                            out.extend_from_slice(d);
+                        }
+                    }
+                }
+                if let Some(d) = <_ as ConvertSymbols<EntrySymbol, StrError>>::process_tail(&mut c)? {
+                    out.extend_from_slice(d);
+                }
+                Ok(())
+            }
             fn push_all(chars: &[char], step: &Cell<usize>, tr: &mut PushTrace) -> Result<Vec<u8>, DecodeError> {
                 let mut d = $m::Decoder::<Vec<u8>>::$new();
                 push_loop!(d, chars, step, tr);
                 d.finalize()
             }
             fn push_all_arr2(chars: &[char], step: &Cell<usize>, tr: &mut PushTrace) -> Result<Vec<u8>, DecodeError> {
-                let mut d = $m::Decoder::<Array<2>>::$new();
+                // base16/base64 also construct through `Default`
+                let mut d = $m::Decoder::<Array<2>>::$altnew();
                 push_loop!(d, chars, step, tr);
                 d.finalize().map(|a| a.as_ref().to_vec())
             }
@@ -410,9 +477,9 @@ macro_rules! subject {
     };
 }
 
-subject!(S64, "base64", B64, base64, decode, new, display, encode_string, encode_display);
-subject!(S32, "base32hex", B32H, base32, decode_hex, new_hex, display_hex, encode_string_hex, encode_display_hex);
-subject!(S16, "base16", B16, base16, decode, new, display, encode_string, encode_display);
+subject!(S64, "base64", B64, base64, decode, new, default, display, encode_string, encode_display, |_| None);
+subject!(S32, "base32hex", B32H, base32, decode_hex, new_hex, new_hex, display_hex, encode_string_hex, encode_display_hex, |_| None);
+subject!(S16, "base16", B16, base16, decode, new, default, display, encode_string, encode_display, |s| Some(base16::decode_vec(s)));
 
 // ===================================================================
 // Accumulators
@@ -449,6 +516,19 @@ const COUNTER_NAMES: &[&str] = &[
     "push_sequences_not_rerun_prefix_already_panics", // 27
     "texts_with_backslash_not_sent_through_iterscanner", // 28
     "obs_converter_continue_after_error_runs",       // 29
+    "calls_decode_other_octets_types",               // 30
+    "calls_serde_deserialize",                       // 31
+    "calls_serde_serialize",                         // 32
+    "escaped_texts",                                 // 33
+    "escaped_texts_malformed_escape",                // 34
+    "escaped_route_accepts",                         // 35
+    "escaped_route_rejects",                         // 36
+    "calls_converter_escaped",                       // 37
+    "serde_deserialize_accepts",                     // 38
+    "nsec3_entry_point_calls",                       // 39
+    "nsec3_accepts",                                 // 40
+    "nsec3_rejects",                                 // 41
+    "nsec3_texts_longer_than_255_octets",            // 42
 ];
 const C_TEXTS: usize = 0;
 const C_REF0: usize = 1;
@@ -475,7 +555,20 @@ const C_SB_PANIC: usize = 26;
 const C_PUSH_IMPLIED: usize = 27;
 const C_BACKSLASH: usize = 28;
 const C_CONV_CONT_RUNS: usize = 29;
-const NC: usize = 30;
+const C_DECODE_OTHER: usize = 30;
+const C_SERDE_DE: usize = 31;
+const C_SERDE_SER: usize = 32;
+const C_ESC_TEXTS: usize = 33;
+const C_ESC_MALFORMED: usize = 34;
+const C_ESC_ACC: usize = 35;
+const C_ESC_REJ: usize = 36;
+const C_ESC_CALLS: usize = 37;
+const C_SERDE_DE_ACC: usize = 38;
+const C_N3_CALLS: usize = 39;
+const C_N3_ACC: usize = 40;
+const C_N3_REJ: usize = 41;
+const C_N3_LONG: usize = 42;
+const NC: usize = 43;
 
 const REF_ROWS: [&str; 6] = [
     "wellformed-canonical",
@@ -502,6 +595,8 @@ struct Local {
     distinct: Vec<u64>,
     /// false while sweeping a space too large to keep a hash set of (all 3-octet strings)
     track_distinct: bool,
+    /// texts up to this length also go through the serde deserializer
+    serde_max_len: usize,
     /// smallest example of "finalize Ok although a push failed"
     not_sticky: Option<(usize, String)>,
     conv_cont_panic: Option<(usize, String)>,
@@ -515,6 +610,7 @@ impl Local {
             viol: BTreeMap::new(),
             distinct: Vec::new(),
             track_distinct: true,
+            serde_max_len: SERDE_MAX_LEN,
             not_sticky: None,
             conv_cont_panic: None,
         }
@@ -810,6 +906,73 @@ fn check_text<S: Subject>(chars: &[char], sc: &mut Scratch, max_tokens: u8, l: &
         }
     };
 
+    // (a') the same convenience function into other octets types / second
+    // entry points, and the serde helper (JSON string -> visit_str -> decode)
+    if let Some(a) = &a {
+        l.c[C_DECODE_OTHER] += 1;
+        match guard(|| S::decode_bytes(text)) {
+            Err(msg) => l.violation(
+                format!("C18|{}|decode<Bytes>|panic|{}", S::NAME, panic_class(&msg)),
+                n, text, "",
+                || format!("decode::<Bytes>({:?}) panicked: {}", text, msg),
+                || json!({"section": "text", "codec": S::NAME, "text": text, "entry": "decode<Bytes>"}),
+            ),
+            Ok(r) => {
+                if &r != a {
+                    l.violation(
+                        format!("C18|{}|decode<Bytes>|disagrees-with-decode<Vec>|{}-vs-{}", S::NAME, a.as_ref().map(|_| "Ok").unwrap_or_else(ek), r.as_ref().map(|_| "Ok").unwrap_or_else(ek)),
+                        n, text, "",
+                        || format!("decode::<Vec<u8>>({:?}) = {:?} but decode::<Bytes> = {:?}", text, a, r),
+                        || json!({"section": "text", "codec": S::NAME, "text": text, "entry": "decode<Bytes>"}),
+                    );
+                }
+            }
+        }
+        if let Some(r) = guard(|| S::decode_extra(text)).unwrap_or_else(|msg| {
+            l.violation(
+                format!("C18|{}|decode_vec|panic|{}", S::NAME, panic_class(&msg)),
+                n, text, "",
+                || format!("decode_vec({:?}) panicked: {}", text, msg),
+                || json!({"section": "text", "codec": S::NAME, "text": text, "entry": "decode_vec"}),
+            );
+            None
+        }) {
+            l.c[C_DECODE_OTHER] += 1;
+            if &r != a {
+                l.violation(
+                    format!("C18|{}|decode_vec|disagrees-with-decode|{}-vs-{}", S::NAME, a.as_ref().map(|_| "Ok").unwrap_or_else(ek), r.as_ref().map(|_| "Ok").unwrap_or_else(ek)),
+                    n, text, "",
+                    || format!("decode({:?}) = {:?} but decode_vec = {:?}", text, a, r),
+                    || json!({"section": "text", "codec": S::NAME, "text": text, "entry": "decode_vec"}),
+                );
+            }
+        }
+        if n <= l.serde_max_len {
+            l.c[C_SERDE_DE] += 1;
+            // serde_json's own string escaping; it is the JSON layer, not the subject
+            let doc = serde_json::to_string(text).expect("JSON string");
+            match guard(|| S::serde_de(&doc)) {
+                Err(msg) => l.violation(
+                    format!("C18|{}|serde::deserialize|panic|{}", S::NAME, panic_class(&msg)),
+                    n, text, "",
+                    || format!("serde::deserialize of JSON {} panicked: {}", doc, msg),
+                    || json!({"section": "text", "codec": S::NAME, "text": text, "entry": "serde::deserialize"}),
+                ),
+                Ok(r) => {
+                    if r.is_ok() {
+                        l.c[C_SERDE_DE_ACC] += 1;
+                    }
+                    let got: Result<&[u8], &str> = match &r {
+                        Ok(v) => Ok(v.as_slice()),
+                        Err(_) => Err("Err"),
+                    };
+                    judge::<S>(l, "serde::deserialize", refv, ref_out, got, n, text, &"", "text");
+                    agree::<S>(l, "serde::deserialize", a, got, n, text, &"", "text");
+                }
+            }
+        }
+    }
+
     // (b) Decoder::push char by char, continuing after errors, then finalize
     let mut push_panics = implied_panic;
     let step = Cell::new(0usize);
@@ -995,7 +1158,184 @@ fn check_text<S: Subject>(chars: &[char], sc: &mut Scratch, max_tokens: u8, l: &
             min_into(&mut l.conv_cont_panic, Some((n, text.to_string())));
         }
     }
+    // a text with a backslash is presentation-format syntax for the scanner
+    // routes: it goes through them with the escape-aware oracle
+    if has_backslash {
+        let chars2: Vec<char> = chars.to_vec();
+        check_escaped::<S>(&chars2, sc, l);
+    }
     push_panics
+}
+
+/// Class strings up to this length (and every encoding of the encode space)
+/// also go through `<module>::serde::deserialize`.
+const SERDE_MAX_LEN: usize = 7;
+
+// -------------------------------------------------------------------
+// Presentation-format escapes on the scanner routes
+// -------------------------------------------------------------------
+
+#[derive(Clone, Copy, Debug, PartialEq, Eq)]
+enum Esc {
+    Plain(char),
+    /// backslash + one non-digit character
+    Simple(char),
+    /// backslash + three decimal digits, value <= 255
+    Decimal(u8),
+}
+
+/// RFC 1035 section 5.1: `\X` (X any character other than a digit) and
+/// `\DDD` (exactly three digits, an octet). Anything else is malformed.
+fn parse_escapes(chars: &[char]) -> Option<Vec<Esc>> {
+    let mut out = Vec::with_capacity(chars.len());
+    let mut i = 0;
+    while i < chars.len() {
+        let c = chars[i];
+        if c != '\\' {
+            out.push(Esc::Plain(c));
+            i += 1;
+            continue;
+        }
+        let x = *chars.get(i + 1)?;
+        if x.is_ascii_digit() {
+            let d2 = *chars.get(i + 2)?;
+            let d3 = *chars.get(i + 3)?;
+            if !d2.is_ascii_digit() || !d3.is_ascii_digit() {
+                return None;
+            }
+            let v = (x as u32 - 48) * 100 + (d2 as u32 - 48) * 10 + (d3 as u32 - 48);
+            if v > 255 {
+                return None;
+            }
+            out.push(Esc::Decimal(v as u8));
+            i += 4;
+        } else {
+            out.push(Esc::Simple(x));
+            i += 2;
+        }
+    }
+    Some(out)
+}
+
+/// One text containing backslashes through the scanner routes.
+///
+/// Oracle: a malformed escape must be rejected. Otherwise resolve the
+/// escapes (`\X` -> X, `\DDD` -> that octet as a character) and ask the
+/// reference codec: not well-formed -> must be rejected. Well-formed: an
+/// escaped symbol MAY be refused (RFC 4648 knows no escapes, the module does
+/// not document them), so both outcomes are fine - but an accepted text must
+/// give exactly the reference octets, and the library-parsed route
+/// (IterScanner) and the harness-parsed route (explicit `Symbol`s, every
+/// 2-token split) must agree.
+fn check_escaped<S: Subject>(chars: &[char], sc: &mut Scratch, l: &mut Local) {
+    let spec = S::spec();
+    sc.set(chars);
+    let n = chars.len();
+    l.c[C_ESC_TEXTS] += 1;
+    let parsed = parse_escapes(chars);
+    let mut resolved: Vec<char> = Vec::new();
+    let mut syms: Option<Vec<Symbol>> = None;
+    let expect: Result<bool, &'static str> = match &parsed {
+        None => {
+            l.c[C_ESC_MALFORMED] += 1;
+            Err("malformed-escape")
+        }
+        Some(es) => {
+            let mut sy = Vec::with_capacity(es.len());
+            let mut constructible = true;
+            for e in es {
+                match *e {
+                    Esc::Plain(c) => {
+                        resolved.push(c);
+                        sy.push(Symbol::Char(c));
+                    }
+                    Esc::Simple(x) => {
+                        resolved.push(x);
+                        if (x as u32) >= 0x20 && (x as u32) < 0x7F {
+                            sy.push(Symbol::SimpleEscape(x as u8));
+                        } else {
+                            constructible = false;
+                        }
+                    }
+                    Esc::Decimal(v) => {
+                        resolved.push(v as char);
+                        sy.push(Symbol::DecimalEscape(v));
+                    }
+                }
+            }
+            if constructible {
+                syms = Some(sy);
+            }
+            match spec.decode(&resolved, &mut sc.ref_out) {
+                Ok(nc) => Ok(nc),
+                Err(w) => Err(w.s()),
+            }
+        }
+    };
+    let text = sc.text.as_str();
+    let ref_out = sc.ref_out.as_slice();
+    let mut first: Option<(String, Result<Vec<u8>, ()>)> = None;
+    let mut one = |entry: String, r: Result<Result<Vec<u8>, StrError>, String>, l: &mut Local| {
+        l.c[C_ESC_CALLS] += 1;
+        let r = match r {
+            Err(msg) => {
+                l.violation(
+                    format!("C18|{}|escaped-text|{}|panic|{}", S::NAME, entry.split('@').next().unwrap_or(""), panic_class(&msg)),
+                    n, text, &entry,
+                    || format!("{} of {:?} panicked: {}", entry, text, msg),
+                    || json!({"section": "escaped", "codec": S::NAME, "text": text, "entry": entry}),
+                );
+                return;
+            }
+            Ok(r) => r,
+        };
+        let class = entry.split('@').next().unwrap_or("").to_string();
+        match (&r, &expect) {
+            (Ok(_), _) => l.c[C_ESC_ACC] += 1,
+            (Err(_), _) => l.c[C_ESC_REJ] += 1,
+        }
+        match (&r, &expect) {
+            (Ok(v), Err(why)) => l.violation(
+                format!("C18|{}|escaped-text|{}|malformed-accepted|ref:{}", S::NAME, class, why),
+                n, text, &entry,
+                || format!("{} of {:?} returned Ok({}) but the text is not acceptable ({}; escapes resolve to {:?})", entry, text, hex(v), why, resolved.iter().collect::<String>()),
+                || json!({"section": "escaped", "codec": S::NAME, "text": text, "entry": entry}),
+            ),
+            (Ok(v), Ok(_)) if v.as_slice() != ref_out => l.violation(
+                format!("C18|{}|escaped-text|{}|accepted-with-wrong-octets|ref!=lib", S::NAME, class),
+                n, text, &entry,
+                || format!("{} of {:?} returned {} but the escapes resolve to {:?} whose RFC 4648 decoding is {}", entry, text, hex(v), resolved.iter().collect::<String>(), hex(ref_out)),
+                || json!({"section": "escaped", "codec": S::NAME, "text": text, "entry": entry}),
+            ),
+            _ => {}
+        }
+        let simple: Result<Vec<u8>, ()> = r.map_err(|_| ());
+        match &first {
+            None => first = Some((entry, simple)),
+            Some((e0, r0)) => {
+                if *r0 != simple {
+                    l.violation(
+                        format!("C18|{}|escaped-text|{}|disagrees-with-{}|{}-vs-{}", S::NAME, class, e0.split('@').next().unwrap_or(""), if r0.is_ok() { "Ok" } else { "Err" }, if simple.is_ok() { "Ok" } else { "Err" }),
+                        n, text, &entry,
+                        || format!("{} of {:?} gave {:?} but {} gave {:?}", e0, text, r0.as_ref().map(|v| hex(v)), entry, simple.as_ref().map(|v| hex(v))),
+                        || json!({"section": "escaped", "codec": S::NAME, "text": text, "entry": entry}),
+                    );
+                }
+            }
+        }
+    };
+    one("IterScanner::convert_token".into(), guard(|| S::conv_token(text)), l);
+    one("IterScanner::convert_entry".into(), guard(|| S::conv_entry(&[text])), l);
+    if let Some(sy) = &syms {
+        let m = sy.len();
+        let mut out = Vec::new();
+        for cut in 0..m.max(1) {
+            // cut == 0: one token; otherwise a token boundary after symbol `cut`
+            let r = guard(|| S::conv_syms(sy, cut, &mut out).map(|()| ()));
+            let r = r.map(|x| x.map(|()| out.clone()));
+            one(if cut == 0 { "SymbolConverter(symbols)".to_string() } else { format!("SymbolConverter(symbols)@split{cut}") }, r, l);
+        }
+    }
 }
 
 /// The "converter continued after its own error" observation is only made
@@ -1200,7 +1540,274 @@ fn check_octets<S: Subject>(data: &[u8], sc: &mut Scratch, l: &mut Local) {
     // every split into <= 2 tokens beyond (the number of 3-token splits grows
     // quadratically; a 200-octet base16 text would have 79,401 of them)
     let max_tokens = if chars.len() <= LONG_TEXT { 3 } else { 2 };
+    let keep = l.serde_max_len;
+    l.serde_max_len = usize::MAX;
     check_text::<S>(&chars, sc, max_tokens, l, false);
+    l.serde_max_len = keep;
+    // the serde serializer must write exactly the RFC encoding as a JSON string
+    l.c[C_SERDE_SER] += 1;
+    match guard(|| S::serde_ser(data)) {
+        Err(msg) => l.violation(
+            format!("C18|{}|serde::serialize|panic|{}", S::NAME, panic_class(&msg)),
+            data.len(), &hexd, "",
+            || format!("serde::serialize({}) panicked: {}", hexd, msg),
+            || json!({"section": "octets", "codec": S::NAME, "octets": hexd}),
+        ),
+        Ok(got) => {
+            // the alphabets and '=' need no JSON escaping
+            let want_doc = format!("\"{}\"", want);
+            if got.as_deref() != Ok(want_doc.as_str()) {
+                l.violation(
+                    format!("C18|{}|serde::serialize|encoding-differs-from-rfc4648|json-string", S::NAME),
+                    data.len(), &hexd, "",
+                    || format!("serde::serialize({}) wrote {:?}, expected the JSON string {}", hexd, got, want_doc),
+                    || json!({"section": "octets", "codec": S::NAME, "octets": hexd}),
+                );
+            }
+        }
+    }
+}
+
+// ===================================================================
+// The text forms built on the codecs: NSEC3 salt (base16, "-" = empty) and
+// NSEC3 next-owner hash (base32hex, unpadded), both at most 255 octets
+// ===================================================================
+
+trait TextForm: 'static {
+    const NAME: &'static str;
+    const IS_SALT: bool;
+    fn spec() -> &'static Spec;
+    fn from_str(s: &str) -> Result<Vec<u8>, String>;
+    fn scan(token: &str) -> Result<Vec<u8>, String>;
+    fn serde_de(doc: &str) -> Result<Vec<u8>, String>;
+    /// from_octets -> (Display text, serde_json text)
+    fn from_octets(data: &[u8]) -> Result<(String, String), String>;
+}
+
+macro_rules! text_form {
+    ($ty:ident, $t:ident, $name:expr, $salt:expr, $spec:ident) => {
+        struct $ty;
+        impl TextForm for $ty {
+            const NAME: &'static str = $name;
+            const IS_SALT: bool = $salt;
+            fn spec() -> &'static Spec {
+                &$spec
+            }
+            fn from_str(s: &str) -> Result<Vec<u8>, String> {
+                <$t<Vec<u8>> as std::str::FromStr>::from_str(s).map(|v| v.as_slice().to_vec()).map_err(|e| e.to_string())
+            }
+            fn scan(token: &str) -> Result<Vec<u8>, String> {
+                let toks = [token];
+                let mut sc = IterScanner::<_, Vec<u8>>::new(toks.iter().copied());
+                $t::scan(&mut sc).map(|v| v.as_slice().to_vec()).map_err(|e| e.to_string())
+            }
+            fn serde_de(doc: &str) -> Result<Vec<u8>, String> {
+                serde_json::from_str::<$t<Vec<u8>>>(doc).map(|v| v.as_slice().to_vec()).map_err(|e| e.to_string())
+            }
+            fn from_octets(data: &[u8]) -> Result<(String, String), String> {
+                let v = $t::from_octets(data.to_vec()).map_err(|e| e.to_string())?;
+                let js = serde_json::to_string(&v).map_err(|e| e.to_string())?;
+                Ok((format!("{}", v), js))
+            }
+        }
+    };
+}
+
+text_form!(FSalt, Nsec3Salt, "Nsec3Salt", true, B16);
+text_form!(FHash, OwnerHash, "OwnerHash", false, B32H);
+
+const N3_MAX_OCTETS: usize = 255;
+
+#[derive(Clone, Copy, PartialEq, Eq, Debug)]
+enum Want {
+    Must,
+    Either,
+    Reject(&'static str),
+}
+
+/// One text through from_str, scan (IterScanner) and the serde deserializer.
+fn check_form_text<F: TextForm>(chars: &[char], l: &mut Local) {
+    let spec = F::spec();
+    let text: String = chars.iter().collect();
+    let n = chars.len();
+    l.c[C_TEXTS] += 1;
+    let mut ref_out = Vec::new();
+    let want = if F::IS_SALT && text == "-" {
+        // RFC 5155 3.3: "-" when the salt length is 0
+        Want::Must
+    } else {
+        match spec.decode(chars, &mut ref_out) {
+            Err(w) => Want::Reject(w.s()),
+            Ok(_) if ref_out.len() > N3_MAX_OCTETS => {
+                l.c[C_N3_LONG] += 1;
+                Want::Reject("longer-than-255-octets")
+            }
+            // the empty text cannot be a token; from_str may take it either way
+            Ok(_) if chars.is_empty() => Want::Either,
+            Ok(true) => Want::Either,
+            Ok(false) => Want::Must,
+        }
+    };
+    if want != Want::Either && matches!(want, Want::Must) && !ref_out.is_empty() {
+        l.distinct.push(key("n3", F::NAME, text.as_bytes()));
+    }
+    let mut outcomes: Vec<(&'static str, Result<Vec<u8>, String>)> = Vec::new();
+    let mut run = |entry: &'static str, r: Result<Result<Vec<u8>, String>, String>, l: &mut Local| {
+        l.c[C_N3_CALLS] += 1;
+        match r {
+            Err(msg) => l.violation(
+                format!("C18|nsec3|{}::{}|panic|{}", F::NAME, entry, panic_class(&msg)),
+                n, &text, entry,
+                || format!("{}::{}({:?}) panicked: {}", F::NAME, entry, text, msg),
+                || json!({"section": "nsec3-text", "form": F::NAME, "text": text, "entry": entry}),
+            ),
+            Ok(r) => {
+                match (&r, want) {
+                    (Ok(_), _) => l.c[C_N3_ACC] += 1,
+                    (Err(_), _) => l.c[C_N3_REJ] += 1,
+                }
+                match (&r, want) {
+                    (Ok(v), Want::Reject(why)) => l.violation(
+                        format!("C18|nsec3|{}::{}|malformed-accepted|ref:{}", F::NAME, entry, why),
+                        n, &text, entry,
+                        || format!("{}::{}({:?}) returned a value of {} octets ({}) but the text is not a valid {} ({})", F::NAME, entry, if n > 40 { format!("{}...[{} chars]", chars[..32].iter().collect::<String>(), n) } else { text.clone() }, v.len(), if v.len() > 16 { format!("{}...", hex(&v[..16])) } else { hex(v) }, F::NAME, why),
+                        || json!({"section": "nsec3-text", "form": F::NAME, "text": text, "entry": entry}),
+                    ),
+                    (Ok(v), _) if v != &ref_out => l.violation(
+                        format!("C18|nsec3|{}::{}|accepted-with-wrong-octets|ref!=lib", F::NAME, entry),
+                        n, &text, entry,
+                        || format!("{}::{}({:?}) = {} but the reference decoding is {}", F::NAME, entry, text, hex(v), hex(&ref_out)),
+                        || json!({"section": "nsec3-text", "form": F::NAME, "text": text, "entry": entry}),
+                    ),
+                    (Err(e), Want::Must) => l.violation(
+                        format!("C18|nsec3|{}::{}|wellformed-rejected|lib:Err", F::NAME, entry),
+                        n, &text, entry,
+                        || format!("{}::{}({:?}) failed with {:?} but the text is a valid {} ({})", F::NAME, entry, text, e, F::NAME, hex(&ref_out)),
+                        || json!({"section": "nsec3-text", "form": F::NAME, "text": text, "entry": entry}),
+                    ),
+                    _ => {}
+                }
+                outcomes.push((entry, r));
+            }
+        }
+    };
+    run("from_str", guard(|| F::from_str(&text)), l);
+    if !chars.is_empty() {
+        run("scan", guard(|| F::scan(&text)), l);
+    }
+    let doc = serde_json::to_string(&text).expect("JSON string");
+    run("deserialize", guard(|| F::serde_de(&doc)), l);
+    // all entry points agree
+    if let Some((e0, r0)) = outcomes.first() {
+        for (e, r) in &outcomes[1..] {
+            if r0.as_ref().ok() != r.as_ref().ok() {
+                l.violation(
+                    format!("C18|nsec3|{}::{}|disagrees-with-{}|{}-vs-{}", F::NAME, e, e0, if r0.is_ok() { "Ok" } else { "Err" }, if r.is_ok() { "Ok" } else { "Err" }),
+                    n, &text, e,
+                    || format!("{}::{}({:?}) = {:?} but {} = {:?} (Ok(number of octets) / Err)", F::NAME, e0, if n > 40 { format!("{}...[{} chars]", chars[..32].iter().collect::<String>(), n) } else { text.clone() }, r0.as_ref().map(|v| v.len()), e, r.as_ref().map(|v| v.len())),
+                    || json!({"section": "nsec3-text", "form": F::NAME, "text": text, "entry": e}),
+                );
+            }
+        }
+    }
+}
+
+/// One octet string: from_octets accepts iff <= 255 octets; Display and the
+/// serde serializer write the canonical text; the canonical text goes back
+/// through every text entry point (for > 255 octets: must be rejected).
+fn check_form_octets<F: TextForm>(data: &[u8], l: &mut Local) {
+    let spec = F::spec();
+    l.c[C_OCTETS] += 1;
+    let hexd = hex(data);
+    let canonical = if F::IS_SALT && data.is_empty() { "-".to_string() } else { spec.encode(data) };
+    l.c[C_N3_CALLS] += 1;
+    match guard(|| F::from_octets(data)) {
+        Err(msg) => l.violation(
+            format!("C18|nsec3|{}::from_octets+Display|panic|{}", F::NAME, panic_class(&msg)),
+            data.len(), &hexd, "",
+            || format!("{}::from_octets / Display of {} octets panicked: {}", F::NAME, data.len(), msg),
+            || json!({"section": "nsec3-octets", "form": F::NAME, "octets": hexd}),
+        ),
+        Ok(r) => match (r, data.len() <= N3_MAX_OCTETS) {
+            (Ok((disp, js)), true) => {
+                if disp != canonical {
+                    l.violation(
+                        format!("C18|nsec3|{}::Display|text-differs-from-canonical|{}", F::NAME, if data.is_empty() { "empty" } else { "non-empty" }),
+                        data.len(), &hexd, "",
+                        || format!("Display of {}({}) = {:?}, canonical text is {:?}", F::NAME, hexd, disp, canonical),
+                        || json!({"section": "nsec3-octets", "form": F::NAME, "octets": hexd}),
+                    );
+                }
+                if js != format!("\"{}\"", canonical) {
+                    l.violation(
+                        format!("C18|nsec3|{}::serialize|text-differs-from-canonical|json-string", F::NAME),
+                        data.len(), &hexd, "",
+                        || format!("serde_json of {}({}) = {:?}, canonical text is {:?}", F::NAME, hexd, js, canonical),
+                        || json!({"section": "nsec3-octets", "form": F::NAME, "octets": hexd}),
+                    );
+                }
+            }
+            (Err(e), true) => l.violation(
+                format!("C18|nsec3|{}::from_octets|valid-length-rejected|lib:Err", F::NAME),
+                data.len(), &hexd, "",
+                || format!("{}::from_octets of {} octets failed: {}", F::NAME, data.len(), e),
+                || json!({"section": "nsec3-octets", "form": F::NAME, "octets": hexd}),
+            ),
+            (Ok(_), false) => l.violation(
+                format!("C18|nsec3|{}::from_octets|too-long-accepted|more-than-255-octets", F::NAME),
+                data.len(), &hexd, "",
+                || format!("{}::from_octets accepted {} octets", F::NAME, data.len()),
+                || json!({"section": "nsec3-octets", "form": F::NAME, "octets": hexd}),
+            ),
+            (Err(_), false) => {}
+        },
+    }
+    let chars: Vec<char> = canonical.chars().collect();
+    check_form_text::<F>(&chars, l);
+}
+
+fn run_forms<F: TextForm>(agg: &Agg, classes: &[char], max_len: usize, max_octets: usize) -> (u64, u64) {
+    let mut texts = 0;
+    for n in 0..=max_len {
+        let cnt = pow(classes.len(), n);
+        texts += cnt;
+        let nchunks = cnt.div_ceil(CHUNK);
+        (0..nchunks).into_par_iter().for_each(|ci| {
+            let mut l = Local::new();
+            let mut chars = Vec::with_capacity(n);
+            for k in ci * CHUNK..((ci + 1) * CHUNK).min(cnt) {
+                nth_string(classes, n, k, &mut chars);
+                check_form_text::<F>(&chars, &mut l);
+            }
+            agg.merge(l);
+        });
+    }
+    // every octet length 0..=max_octets, three fill patterns
+    let cnt = (max_octets as u64 + 1) * N_PATTERNS_ALL;
+    (0..cnt).into_par_iter().for_each(|k| {
+        let mut l = Local::new();
+        let d = fill_pattern((k % N_PATTERNS_ALL) as usize, (k / N_PATTERNS_ALL) as usize);
+        check_form_octets::<F>(&d, &mut l);
+        agg.merge(l);
+    });
+    (texts, cnt)
+}
+
+/// All strings over an escape-bearing class alphabet that contain a backslash.
+fn run_escaped<S: Subject>(agg: &Agg, wd: &Watchdog, classes: &[char], max_len: usize) -> u64 {
+    let mut total = 0;
+    for n in 0..=max_len {
+        let cnt = pow(classes.len(), n);
+        total += cnt;
+        run_indexed::<S>(agg, wd, "escaped-class-strings", cnt, |k, sc, l| {
+            let mut chars = Vec::with_capacity(n);
+            nth_string(classes, n, k, &mut chars);
+            if chars.contains(&'\\') {
+                check_escaped::<S>(&chars, sc, l);
+            }
+        });
+    }
+    total
 }
 
 // ===================================================================
@@ -1208,6 +1815,7 @@ fn check_octets<S: Subject>(data: &[u8], sc: &mut Scratch, l: &mut Local) {
 // ===================================================================
 
 const CHUNK: u64 = 4096;
+const EVAL_COUNTERS: [usize; 11] = [C_DECODE, C_PUSHSEQ, C_CONV_DIRECT, C_CONV_ENTRY, C_CONV_TOKEN, C_ENCODE, C_DECODE_OTHER, C_SERDE_DE, C_SERDE_SER, C_ESC_CALLS, C_N3_CALLS];
 
 fn run_indexed<S: Subject>(
     agg: &Agg,
@@ -1453,6 +2061,13 @@ fn replay_case<S: Subject>(case: &Value, l: &mut Local) {
             println!("octets {} -> display {:?}, reference {:?}", hex(&d), guard(|| S::display(&d)), S::spec().encode(&d));
             check_octets::<S>(&d, &mut sc, l);
         }
+        "escaped" => {
+            let text = case["text"].as_str().unwrap_or("");
+            let chars: Vec<char> = text.chars().collect();
+            println!("escapes parse as {:?}", parse_escapes(&chars));
+            println!("convert_token -> {:?}", guard(|| S::conv_token(text).map(|v| hex(&v)).map_err(|e| e.to_string())));
+            check_escaped::<S>(&chars, &mut sc, l);
+        }
         "shortbuf" => {
             let text = case["text"].as_str().unwrap_or("");
             let chars: Vec<char> = text.chars().collect();
@@ -1520,20 +2135,36 @@ fn main() {
         let case = body["case"].clone();
         let name = case["codec"].as_str().unwrap_or("").to_string();
         let mut l = Local::new();
-        match name.as_str() {
-            "base64" => replay_case::<S64>(&case, &mut l),
-            "base32hex" => replay_case::<S32>(&case, &mut l),
-            "base16" => replay_case::<S16>(&case, &mut l),
-            other => {
-                eprintln!("MACHINERY: unknown codec {other:?} in replay file {path}");
-                std::process::exit(2);
+        if let Some(form) = case["form"].as_str() {
+            let octets = case["section"].as_str() == Some("nsec3-octets");
+            let chars: Vec<char> = case["text"].as_str().unwrap_or("").chars().collect();
+            let data = unhex(case["octets"].as_str().unwrap_or(""));
+            match (form, octets) {
+                ("Nsec3Salt", false) => check_form_text::<FSalt>(&chars, &mut l),
+                ("Nsec3Salt", true) => check_form_octets::<FSalt>(&data, &mut l),
+                ("OwnerHash", false) => check_form_text::<FHash>(&chars, &mut l),
+                ("OwnerHash", true) => check_form_octets::<FHash>(&data, &mut l),
+                _ => {
+                    eprintln!("MACHINERY: unknown form {form:?} in replay file {path}");
+                    std::process::exit(2);
+                }
+            }
+        } else {
+            match name.as_str() {
+                "base64" => replay_case::<S64>(&case, &mut l),
+                "base32hex" => replay_case::<S32>(&case, &mut l),
+                "base16" => replay_case::<S16>(&case, &mut l),
+                other => {
+                    eprintln!("MACHINERY: unknown codec {other:?} in replay file {path}");
+                    std::process::exit(2);
+                }
             }
         }
         for (sig, v) in &l.viol {
             println!("replay: {} x{}: {}", sig, v.n, v.what);
         }
         report(&ctx, &l);
-        let evals: u64 = [C_DECODE, C_PUSHSEQ, C_CONV_DIRECT, C_CONV_ENTRY, C_CONV_TOKEN, C_ENCODE].iter().map(|&i| l.c[i]).sum();
+        let evals: u64 = EVAL_COUNTERS.iter().map(|&i| l.c[i]).sum();
         ctx.finish(
             json!({"evaluations": evals.max(1), "distinct_nontrivial": 1, "rule": "single replayed case", "samples": [case], "exhaustive": true, "replay": codec_json(&l)}),
             &["replay of one recorded case"],
@@ -1603,14 +2234,47 @@ fn main() {
     let s16 = run_shortbuf::<S16>(&a16, &wd, &sb16, sblen);
     space.insert("shortbuf_extension".into(), json!({"buffer": "octseq::Array<2>", "max_len": sblen, "classes": [sb64.iter().collect::<String>(), sb32.iter().collect::<String>(), sb16.iter().collect::<String>()], "texts": [s64, s32, s16]}));
 
+    // escapes on the scanner routes: backslash, an alphabet symbol that is a
+    // letter, digits that form \DDD escapes of alphabet symbols (\065 = 'A',
+    // \048 = '0'), '=' / a symbol outside the alphabet
+    let esc64: Vec<char> = vec!['\\', 'A', '0', '6', '5', '=', '!'];
+    let esc32: Vec<char> = vec!['\\', '0', '4', '8', 'V', 'W'];
+    let esc16: Vec<char> = vec!['\\', '0', '4', '8', 'F', 'g'];
+    let esclen = if quick { 7 } else { 9 };
+    let x64 = run_escaped::<S64>(&a64, &wd, &esc64, esclen);
+    let x32 = run_escaped::<S32>(&a32, &wd, &esc32, esclen);
+    let x16 = run_escaped::<S16>(&a16, &wd, &esc16, esclen);
+    space.insert("escaped_scanner_routes".into(), json!({"classes": [esc64.iter().collect::<String>(), esc32.iter().collect::<String>(), esc16.iter().collect::<String>()], "max_len": esclen, "strings_enumerated": [x64, x32, x16], "checked": "those containing a backslash (counter escaped_texts), plus every alphabet-sweep text with a backslash"}));
+
+    // NSEC3 salt / owner hash text forms
+    let an3 = Agg { inner: Mutex::new(Local::new()), stats: stats.clone() };
+    let cls_salt: Vec<char> = vec!['-', '0', 'F', 'f', 'g', '='];
+    let cls_hash: Vec<char> = vec!['-', '0', '1', 'V', 'v', 'W', '='];
+    let n3len = if quick { 6 } else { 8 };
+    let n3oct = 300;
+    let (ts, os) = run_forms::<FSalt>(&an3, &cls_salt, n3len, n3oct);
+    let (th, oh) = run_forms::<FHash>(&an3, &cls_hash, n3len, n3oct);
+    space.insert("nsec3_text_forms".into(), json!({"entry_points": "Nsec3Salt / OwnerHash: FromStr, scan (IterScanner), serde Deserialize; from_octets, Display, serde Serialize", "salt_classes": cls_salt.iter().collect::<String>(), "hash_classes": cls_hash.iter().collect::<String>(), "max_len": n3len, "class_texts": [ts, th], "octet_lengths": format!("every length 0..={n3oct} x 3 fill patterns (limit is 255)"), "octet_strings": [os, oh]}));
+
     // ---- report -------------------------------------------------------
+    let ln3 = an3.inner.into_inner().unwrap();
     let l64 = a64.inner.into_inner().unwrap();
     let l32 = a32.inner.into_inner().unwrap();
     let l16 = a16.inner.into_inner().unwrap();
     let mut evals = 0u64;
-    for l in [&l64, &l32, &l16] {
+    for l in [&l64, &l32, &l16, &ln3] {
         report(&ctx, l);
-        evals += [C_DECODE, C_PUSHSEQ, C_CONV_DIRECT, C_CONV_ENTRY, C_CONV_TOKEN, C_ENCODE].iter().map(|&i| l.c[i]).sum::<u64>();
+        evals += EVAL_COUNTERS.iter().map(|&i| l.c[i]).sum::<u64>();
+    }
+    if ln3.c[C_N3_LONG] == 0 || ln3.c[C_N3_ACC] == 0 || ln3.c[C_N3_REJ] == 0 {
+        eprintln!("MACHINERY: nsec3 text forms: accept / reject / over-length case never reached");
+        std::process::exit(2);
+    }
+    for (name, l) in [("base64", &l64), ("base32hex", &l32), ("base16", &l16)] {
+        if l.c[C_ESC_ACC] == 0 || l.c[C_ESC_REJ] == 0 || l.c[C_ESC_MALFORMED] == 0 || l.c[C_SERDE_DE_ACC] == 0 {
+            eprintln!("MACHINERY: {name}: escaped-text accept / reject / malformed-escape or serde accept never reached");
+            std::process::exit(2);
+        }
     }
     // vacuity guards: the interesting verdicts must all have been reached
     for (name, l) in [("base64", &l64), ("base32hex", &l32), ("base16", &l16)] {
@@ -1633,6 +2297,7 @@ fn main() {
             "base64": codec_json(&l64),
             "base32hex": codec_json(&l32),
             "base16": codec_json(&l16),
+            "nsec3": codec_json(&ln3),
             "samples": stats.samples(),
         }),
         &[
@@ -1643,6 +2308,10 @@ fn main() {
             "all three Decoder::push docs promise that errors are kept after the first failed push: a later push returning Ok, or finalize returning Ok, after a failed push is a violation (error-not-kept)",
             "character classes stand for their class; the alphabet sweep covers every character U+0000..U+017F (+11 look-alikes) in the first two positions and at every position of one full group",
             "bounded-buffer (Array<2>) runs are an extension beyond the property's input quantifier; they share the root cause of the known push panic",
+            "escaped symbols (\\X, \\DDD) on the scanner routes: a malformed escape and a text whose escapes resolve to non-well-formed codec text must be rejected; a well-formed text written with escapes MAY be refused (neither RFC 4648 nor the modules define escapes) but if accepted must give the reference octets, and library-parsed and harness-parsed symbol routes must agree",
+            "NSEC3 text forms: a text is valid iff it is the codec's well-formed text of at most 255 octets (salt: or exactly \"-\"); the empty string (not a possible token) may be taken either way by FromStr/Deserialize",
+            "serde helpers are exercised through serde_json only (human-readable side: a JSON string); the binary (non-human-readable) side is raw octets and involves no codec",
+            "not covered because it is not codec behaviour: Debug/Display of the error types, accessors/Eq/Ord/Hash/compose/parse of Nsec3/Nsec3param/Nsec3Salt/OwnerHash, ZonefileFmt, the integer/name/charstr scanning functions of base/scan.rs; octets types SmallVec/heapless are not reachable without adding crates to the harness (Vec, Bytes and Array cover the growable, shared and fixed builders)",
         ],
     );
 }
